@@ -21,6 +21,7 @@ CONSTANTS
   PairFirst = {1}
   TypedFlush = {FALSE}
   Interleave = FALSE
+  MaxAbandon = 0
   Bug = {}
 INVARIANT EmitTrace
 CHECK_DEADLOCK FALSE
